@@ -134,6 +134,38 @@ func CheckCall(sc *Scenario, v *CallView, rs RuleSet, em int) []Violation {
 		}
 	}
 
+	// --- injected names are shared by all rules of the call (C15): in the sorted variants a rule
+	// reading Resp.Mark sees what the latest earlier rule of this call stored there
+	if !panicked && !noJudge && len(specs) > 0 && !specs[0].MustErr && len(specs[0].Stages) == 1 && specs[0].Stages[0].Mode != ModeUnordered {
+		var evs []struct {
+			seq  int64
+			kind int32
+			rule int
+			val  int64
+		}
+		for _, x := range v.Execs {
+			for _, e := range x.Own {
+				if e.Kind == EvShW || e.Kind == EvShR {
+					evs = append(evs, struct {
+						seq  int64
+						kind int32
+						rule int
+						val  int64
+					}{e.Seq, e.Kind, x.Rule, e.C})
+				}
+			}
+		}
+		sort.Slice(evs, func(i, j int) bool { return evs[i].seq < evs[j].seq })
+		last := int64(0)
+		for _, e := range evs {
+			if e.kind == EvShW {
+				last = int64(e.rule)
+			} else if e.val != last {
+				add("shared-injected-not-visible", "", fmt.Sprintf("%s: rule %d read Resp.Mark=%d, the latest earlier rule of this call stored %d", c, e.rule, e.val, last))
+			}
+		}
+	}
+
 	// --- conc blocks (C18)
 	for _, x := range v.Execs {
 		rd := sc.Rule(x.Rule)
